@@ -2,6 +2,15 @@
 """Imports confirmed seeded changes from /tmp/seeded-out into /verif/seeded/<prop>-<variant>/."""
 import json, os, re, shutil, sys
 SUMMARY = {
+ "C05-G": ("rehash_in_place unwind guard: items -= 1 moved inside `if let Some(drop)` (a partial re-introduction of F1)", "a Hash/BuildHasher panic during an in-place rehash of a table whose element type has no drop glue: len() keeps counting the lost elements"),
+ "C07-G": ("HashSet::is_subset gains a strategy for a huge but nearly empty receiver that counts other.iter().take(n).filter(..) instead of .filter(..).take(n)", "a receiver with capacity > 4096 and >= 64x |other| that is a strict subset: reported as not a subset"),
+ "C08-G": ("Extend for an empty map reserves the iterator's UPPER size_hint (via try_reserve) instead of the lower bound", "an empty but allocated map/set refilled through extend from an iterator whose upper hint exceeds the capacity (filter, skip_while): it reallocates although the keys fit"),
+ "C11-G": ("clone_from_impl sends tables of >= 2^27 buckets to a blocked copy that never writes the trailing mirror group", "clone()/clone_from of a table of >= 2^27 buckets with an element whose probe wrapped around the table end"),
+ "C12-G": ("the private Global::allocate fallback (builds WITHOUT the allocator-api2 feature) calls handle_alloc_error on a null allocation instead of returning Err", "hashbrown built with --no-default-features and a real refusal by the global allocator: try_reserve aborts instead of returning AllocError"),
+ "C15-G": ("get_many_mut / get_many_unchecked_mut of RawTable and HashTable return references with a lifetime that is not tied to &mut self", "lifetime only: two calls for the same key compile and yield two live &mut (a program the correct crate rejects with E0499)"),
+ "C17-G": ("calculate_layout_for checks len > isize::MAX instead of isize::MAX - (ctrl_align - 1)", "element sizes 2^61-11..2^61-8 with 4 buckets (or 2^60-5/2^60-4 with 8): a layout whose padded size exceeds isize::MAX is produced"),
+ "C18-G": ("erase gains a 'last element' fast path, but items -= 1 was hoisted above its `items == 1` guard", "removing an element when exactly one other remains that was displaced past a still-full probe window containing the removed slot; whether the window is full depends on the group width"),
+ "C20-G": ("MapVisitor gains visit_seq (maps written as sequences of pairs) that preallocates with the raw size_hint", "a deserializer that answers deserialize_map with visit_seq and a lying length"),
  "C09-G": ("fold_impl hands off to a new fold_wide when >= 8 MiB of control bytes lie ahead; its line_is_vacant helper never tests the last group of a 64-byte line", "fold/for_each/count on the borrowing iterators of a sparse table of >= 2^24 buckets: about a quarter of the elements are not visited"),
  "C01-G": ("rehash_in_place swaps buckets through a hand-rolled 256-byte block buffer whose remainder is swapped at offset 0", "element types larger than 256 bytes, a tombstone-saturated table at most half full and a probe sequence that wraps (the swap branch of the in-place rehash)"),
  "C02-G": ("RawTable::get_many_mut compares bucket pointers only when the two lookups' hashes are equal", "two requests with different hashes that resolve to one bucket (HashTable closures, or a lookup type whose Hash is finer than its Equivalent)"),
